@@ -71,7 +71,7 @@ def rule_f1(prog, tier):
         if isinstance(v, Raise):
             r.fail(Finding(PROP, 'R-F-1', I.where(v.node, f.module),
                            f.short(), 'raise', 'get_fair_states raises %r'
-                           % (v.exc,)))
+                           % (v.exc,)), witness=v)
         else:
             outs.append(I.snapshot(v, p))
     if len(outs) != 1 or not isinstance(outs[0], Coll):
